@@ -5596,17 +5596,18 @@ func (a *Agent) cleanupShellClientStream(streamID uint64) {
 
 // handleShellClientData handles incoming data for a shell client stream.
 func (a *Agent) handleShellClientData(streamID uint64, data []byte, flags uint8) bool {
-	// Hold lock while getting adapter and session key to avoid race with cleanup
 	a.shellClientMu.RLock()
 	adapter := a.shellClientStreams[streamID]
+	a.shellClientMu.RUnlock()
 	if adapter == nil {
-		a.shellClientMu.RUnlock()
 		a.logger.Debug("handleShellClientData: no adapter", logging.KeyStreamID, streamID)
 		return false
 	}
-	// Get session key while still holding lock
+	// The adapter's own lock must not be taken while shellClientMu is held:
+	// adapter.Close holds the adapter's lock while its close callback takes
+	// shellClientMu, so the opposite order here deadlocks this goroutine (the
+	// frame dispatcher of the whole peer connection) against a closing session.
 	sessionKey := adapter.GetSessionKey()
-	a.shellClientMu.RUnlock()
 
 	if sessionKey == nil {
 		a.logger.Error("handleShellClientData: no session key",
